@@ -284,7 +284,7 @@ Proof.
   unfold aget. apply nth_In. destruct (arr h); [contradiction|cbn; lia].
 Qed.
 
-Ltac par_tac P1 P2 P3 := constructor; cbn; lia.
+Ltac par_tac := constructor; cbn [exit_worker with_pc spawn with_heap idle maxw wcap]; lia.
 
 Theorem pool_inv_step : forall p l p',
   pool_ok p -> pool_inv p -> step p l = Some p' -> pool_inv p'.
@@ -295,6 +295,7 @@ Proof.
   pose proof (with_now_ok p (label_time l) Hok) as Hok0.
   set (q := with_now p (label_time l)) in *.
   assert (Hnq : now q = label_time l) by reflexivity.
+  clearbody q.
   destruct Hinv0 as [Par W F0 B T F1 WC].
   destruct l as [x d tc nn t|x t|w t|w t|w t|w t]; cbn [label_time] in *.
   - (* Call *)
@@ -355,7 +356,7 @@ Proof.
         + repeat split. intros HI. exfalso.
           rewrite Z.gtb_ltb in Ew. apply Z.ltb_ge in Ew. cbn in Ew.
           assert (Hne : arr (hp q) <> []) by (intros E; rewrite E in HI; destruct HI).
-          specialize (F0 Hne). unfold q in F0. cbn in F0. lia. }
+          specialize (F0 Hne). lia. }
     destruct Hpar as [Hi [Hm [Hc Htk]]]. destruct Par as [P1 P2 P3].
     destruct (in_dec N.eq_dec x (arr (hp q))) as [HI|HI].
     + assert (Hne : arr (hp q) <> []) by (intros E; rewrite E in HI; destruct HI).
@@ -388,8 +389,8 @@ Proof.
       assert (Hcnt : count_live (workers (exit_worker q w)) = watchers q - 1).
       { cbn [exit_worker workers]. rewrite count_live_set by exact Hw. rewrite Hlw. cbn [is_live ind]. lia. }
       constructor; cbn [exit_worker hp watchers tokens maxw wcap idle now].
-      * constructor; cbn; lia.
-      * cbn [exit_worker workers] in Hcnt. lia.
+      * par_tac.
+      * lia.
       * intros Hne. destruct Hcond as [E|[_ [_ E]]]; [apply f_len_zero in E; contradiction|lia].
       * lia.
       * lia.
@@ -409,8 +410,8 @@ Proof.
       assert (Hcnt : count_live (workers (with_pc q w (Sleeping mis u))) = watchers q).
       { cbn [with_pc workers]. rewrite count_live_set by exact Hw. rewrite Hlw. cbn [is_live ind]. lia. }
       constructor; cbn [with_pc hp watchers tokens maxw wcap idle now].
-      * constructor; cbn; lia.
-      * cbn [with_pc workers] in Hcnt. lia.
+      * par_tac.
+      * lia.
       * exact F0.
       * lia.
       * lia.
@@ -422,7 +423,7 @@ Proof.
         destruct Hcond as [[E _]|[_ [_ [[_ [_ [_ A]]]|[_ A]]]]].
         -- apply f_len_zero in E. contradiction.
         -- left. exact A.
-        -- left. lia.
+        -- left. cbn [with_pc hp]. lia.
     + (* pop *)
       set (c := if live (get (hs h1) x) then Running x else Deciding (mis + 1)).
       assert (Hact : active c) by (unfold c; destruct (live (get (hs h1) x)); exact I).
@@ -435,10 +436,10 @@ Proof.
         assert (Hw' : (w < length (workers (spawn (with_heap q h1))))%nat).
         { cbn [spawn workers with_heap]. rewrite app_length. cbn [length]. lia. }
         constructor; cbn [with_pc spawn with_heap hp watchers tokens maxw wcap idle now].
-        -- constructor; cbn; lia.
-        -- cbn [workers]. rewrite count_live_set by (rewrite app_length; cbn [length]; lia).
+        -- par_tac.
+        -- cbn [with_pc spawn with_heap workers]. rewrite count_live_set by (rewrite app_length; cbn [length]; lia).
            rewrite app_nth1 by exact Hw. rewrite Hlw, Hlc, count_live_app.
-           unfold count_live at 2. cbn. lia.
+           replace (count_live [Deciding 1]) with 1 by reflexivity. cbn [ind]. lia.
         -- intros _. lia.
         -- lia.
         -- lia.
@@ -455,8 +456,8 @@ Proof.
               ** apply (F1 ltac:(lia) w' m u E).
         -- intros _. left. exists w. rewrite pc_with_pc_same by exact Hw'. exact Hact.
       * constructor; cbn [with_pc with_heap hp watchers tokens maxw wcap idle now].
-        -- constructor; cbn; lia.
-        -- cbn [workers]. rewrite count_live_set by exact Hw. rewrite Hlw, Hlc. cbn [ind]. lia.
+        -- par_tac.
+        -- cbn [with_pc spawn with_heap workers]. rewrite count_live_set by exact Hw. rewrite Hlw, Hlc. cbn [ind]. lia.
         -- intros _. lia.
         -- lia.
         -- lia.
@@ -473,8 +474,8 @@ Proof.
     { change (nth w (workers q) Gone) with (pc_of q w). rewrite Hpc. reflexivity. }
     destruct Par as [P1 P2 P3].
     constructor; cbn [with_pc hp watchers tokens maxw wcap idle now].
-    + constructor; cbn; lia.
-    + cbn [workers]. rewrite count_live_set by exact Hw. rewrite Hlw. cbn [is_live ind]. lia.
+    + par_tac.
+    + cbn [with_pc spawn with_heap workers]. rewrite count_live_set by exact Hw. rewrite Hlw. cbn [is_live ind]. lia.
     + exact F0.
     + lia.
     + lia.
@@ -490,7 +491,7 @@ Proof.
     { change (nth w (workers q) Gone) with (pc_of q w). rewrite Hpc. reflexivity. }
     destruct Par as [P1 P2 P3].
     constructor; cbn [with_pc hp watchers tokens maxw wcap idle now workers].
-    + constructor; cbn; lia.
+    + par_tac.
     + rewrite count_live_set by exact Hw. rewrite Hlw. cbn [is_live ind]. lia.
     + exact F0.
     + lia.
@@ -507,8 +508,8 @@ Proof.
     { change (nth w (workers q) Gone) with (pc_of q w). rewrite Hpc. reflexivity. }
     destruct Par as [P1 P2 P3].
     constructor; cbn [with_pc hp watchers tokens maxw wcap idle now].
-    + constructor; cbn; lia.
-    + cbn [workers]. rewrite count_live_set by exact Hw. rewrite Hlw. cbn [is_live ind]. lia.
+    + par_tac.
+    + cbn [with_pc spawn with_heap workers]. rewrite count_live_set by exact Hw. rewrite Hlw. cbn [is_live ind]. lia.
     + exact F0.
     + lia.
     + lia.
@@ -516,4 +517,389 @@ Proof.
       * rewrite pc_with_pc_same in E by exact Hw. discriminate.
       * rewrite pc_with_pc_other in E by exact Hne. apply (F1 H2 w' m u' E).
     + intros _. left. exists w. rewrite pc_with_pc_same by exact Hw. exact I.
+Qed.
+
+(** * reachable states *)
+
+Lemma run_inv : forall tr p p', pool_ok p -> pool_inv p -> run p tr = Some p' -> pool_ok p' /\ pool_inv p'.
+Proof.
+  induction tr as [|l tr IH]; intros p p' Hok Hinv Hr; cbn [run] in Hr.
+  - injection Hr as <-. split; assumption.
+  - destruct (step p l) as [p1|] eqn:E; [|discriminate].
+    apply (IH p1 p'); [|eapply pool_inv_step; eauto|exact Hr].
+    apply (sf_ok _ _ _ (step_facts_hold p l p1 Hok E)).
+Qed.
+
+Theorem pool_inv_reachable : forall i m c k tr p,
+  0 <= i -> 1 <= m -> 1 <= c -> 0 <= k <= c ->
+  run (init_pool i m c k) tr = Some p -> pool_inv p.
+Proof.
+  intros i m c k tr p Hi Hm Hc Hk Hr.
+  apply (run_inv tr (init_pool i m c k) p); [apply pool_ok_init|apply pool_inv_init; assumption|exact Hr].
+Qed.
+
+(** ** F0 *)
+Theorem F0 : forall p, pool_inv p ->
+  watchers p = live_workers p /\ (arr (hp p) <> [] -> 1 <= watchers p).
+Proof. intros p H. split; [apply (pi_watch p H)|apply (pi_f0 p H)]. Qed.
+
+Lemma all_gone_count : forall l, (forall w, nth w l Gone = Gone) -> count_live l = 0.
+Proof.
+  intros l H. pose proof (count_live_nonneg l) as Hn.
+  destruct (Z.eq_dec (count_live l) 0) as [E|E]; [exact E|].
+  destruct (exists_live l ltac:(lia)) as [w Hw]. rewrite H in Hw. discriminate.
+Qed.
+
+(** ** spawn_iff_none *)
+Theorem no_watchers_iff_all_gone : forall p, pool_inv p ->
+  (watchers p = 0 <-> forall w, pc_of p w = Gone).
+Proof.
+  intros p H. rewrite (pi_watch p H). split.
+  - intros E w. apply count_zero_all_gone. exact E.
+  - intros E. apply all_gone_count. exact E.
+Qed.
+
+Theorem call_spawns_iff_none : forall p x d tc t p',
+  step p (LCall x d tc true t) = Some p' ->
+  (watchers p = 0 -> watchers p' = 1 /\ workers p' = workers p ++ [Deciding 1] /\ tokens p' = tokens p) /\
+  (watchers p <> 0 -> watchers p' = watchers p /\ workers p' = workers p /\
+                      tokens p' = (if tokens p <? wcap p then tokens p + 1 else tokens p)).
+Proof.
+  intros p x d tc t p' Hs. unfold step in Hs. cbn [label_time] in Hs.
+  destruct (t <? now p); [discriminate|]. destruct (tc >? t); [discriminate|].
+  destruct (do_call_nonnil _ x d tc p' Hs) as [h [_ [_ [_ [_ [_ Hc]]]]]].
+  cbn [with_now watchers workers tokens notify wcap] in Hc.
+  destruct Hc as [[A [B [C D]]]|[A [B [C D]]]]; split; intros H; try contradiction; auto; lia.
+Qed.
+
+(** ** no_early_exit *)
+Theorem no_early_exit : forall p w t p' mis,
+  step p (LDecide w t) = Some p' -> pc_of p w = Deciding mis -> pc_of p' w = Gone ->
+  1 < mis /\ (arr (hp p) = [] \/ (1 < watchers p /\ t <= head_fire (hp p))) /\
+  watchers p' = watchers p - 1.
+Proof.
+  intros p w t p' mis Hs Hpc Hg. unfold step in Hs. cbn [label_time] in Hs.
+  destruct (t <? now p); [discriminate|].
+  set (q := with_now p t) in *.
+  change (pc_of q w) with (pc_of p w) in Hs. rewrite Hpc in Hs. injection Hs as <-.
+  assert (Hw : (w < length (workers q))%nat) by (apply pc_of_lt; change (pc_of q w) with (pc_of p w); rewrite Hpc; discriminate).
+  destruct (decide_out_intro q w mis t) as [Hcond Hmis|u Hcond|h1 x sp Hlen Hdue HP Hsp].
+  - split; [exact Hmis|]. split; [|reflexivity].
+    destruct Hcond as [E|[_ [A B]]]; [left; apply f_len_zero; exact E|right; split; assumption].
+  - rewrite pc_with_pc_same in Hg by exact Hw. discriminate.
+  - exfalso. destruct sp.
+    + rewrite pc_with_pc_same in Hg.
+      * destruct (live (get (hs h1) x)); discriminate.
+      * cbn [spawn with_heap workers]. rewrite app_length. cbn [length]. lia.
+    + rewrite pc_with_pc_same in Hg by exact Hw. destruct (live (get (hs h1) x)); discriminate.
+Qed.
+
+(** ** restart *)
+Theorem restart : forall p x d tc t p',
+  watchers p = 0 -> step p (LCall x d tc true t) = Some p' ->
+  watchers p' = 1 /\ pc_of p' (length (workers p)) = Deciding 1 /\
+  forall t', t <= t' -> step p' (LDecide (length (workers p)) t') <> None.
+Proof.
+  intros p x d tc t p' Hw Hs.
+  destruct (call_spawns_iff_none p x d tc t p' Hs) as [A _]. destruct (A Hw) as [W1 [Wk _]].
+  assert (Hpc : pc_of p' (length (workers p)) = Deciding 1).
+  { unfold pc_of. rewrite Wk, app_nth2 by lia. rewrite Nat.sub_diag. reflexivity. }
+  split; [exact W1|]. split; [exact Hpc|].
+  intros t' Ht'. unfold step. cbn [label_time].
+  assert (Hn : now p' = t).
+  { unfold step in Hs. cbn [label_time] in Hs. destruct (t <? now p); [discriminate|].
+    destruct (tc >? t); [discriminate|].
+    destruct (do_call_nonnil _ x d tc p' Hs) as [h [_ [_ [_ [_ [Hn _]]]]]]. exact Hn. }
+  destruct (t' <? now p') eqn:E; [apply Z.ltb_lt in E; lia|].
+  change (pc_of (with_now p' t') (length (workers p))) with (pc_of p' (length (workers p))).
+  rewrite Hpc. discriminate.
+Qed.
+
+(** ** wind_down: ranking function *)
+
+Definition worker_label (l : label) : bool :=
+  match l with LCall _ _ _ _ _ | LCancel _ _ => false | _ => true end.
+
+Definition rank_pc (c : pc) : Z :=
+  match c with
+  | Gone => 0
+  | Running _ => 6
+  | Deciding m => 2 * Z.max 0 (2 - m) + 1
+  | Sleeping m _ => 2 * Z.max 0 (1 - m) + 2
+  end.
+
+Definition rank_list (l : list pc) : Z := fold_right (fun c a => rank_pc c + a) 0 l.
+
+Definition rank (p : pool) : Z := rank_list (workers p) + 2 * tokens p.
+
+Lemma rank_pc_nonneg : forall c, 0 <= rank_pc c.
+Proof. intros [m|m u|x|]; cbn [rank_pc]; lia. Qed.
+
+Lemma rank_list_nonneg : forall l, 0 <= rank_list l.
+Proof.
+  induction l as [|c l IH]; cbn [rank_list fold_right]; [lia|].
+  pose proof (rank_pc_nonneg c). fold (rank_list l). lia.
+Qed.
+
+Lemma rank_list_set : forall l w c, (w < length l)%nat ->
+  rank_list (set_pc_list l w c) = rank_list l - rank_pc (nth w l Gone) + rank_pc c.
+Proof.
+  induction l as [|a l IH]; intros [|w] c Hw; cbn [length] in Hw; try lia;
+    cbn [set_pc_list nth rank_list fold_right]; fold (rank_list l).
+  - lia.
+  - fold (rank_list (set_pc_list l w c)). rewrite IH by lia. lia.
+Qed.
+
+Lemma rank_step : forall p l p',
+  arr (hp p) = [] -> 0 <= tokens p -> worker_label l = true -> step p l = Some p' ->
+  arr (hp p') = [] /\ 0 <= tokens p' /\ rank p' < rank p.
+Proof.
+  intros p l p' He Htk Hl Hs. unfold step in Hs.
+  destruct (label_time l <? now p); [discriminate|].
+  set (q := with_now p (label_time l)) in *.
+  assert (Hq : hp q = hp p /\ tokens q = tokens p /\ workers q = workers p) by (repeat split).
+  destruct Hq as [Hqh [Hqt Hqw]].
+  assert (Hrq : rank q = rank p) by reflexivity.
+  clearbody q.
+  destruct l as [x d tc nn t|x t|w t|w t|w t|w t]; try discriminate; cbn [label_time] in *.
+  - (* Decide *)
+    destruct (pc_of q w) as [mis| | |] eqn:Hpc; try discriminate. injection Hs as <-.
+    assert (Hw : (w < length (workers q))%nat) by (apply pc_of_lt; rewrite Hpc; discriminate).
+    assert (H0 : f_len (hp q) = 0) by (apply f_len_zero; rewrite Hqh; exact He).
+    unfold do_decide. rewrite H0. cbn [Z.eqb].
+    destruct (mis >? 1) eqn:Em.
+    + apply Z.gtb_lt in Em. cbn [exit_worker hp tokens]. rewrite Hqh, Hqt.
+      split; [exact He|]. split; [exact Htk|].
+      rewrite <- Hrq. unfold rank. cbn [exit_worker workers tokens].
+      rewrite rank_list_set by exact Hw. change (nth w (workers q) Gone) with (pc_of q w).
+      rewrite Hpc. cbn [rank_pc]. lia.
+    + rewrite Z.gtb_ltb in Em. apply Z.ltb_ge in Em. cbn [with_pc hp tokens]. rewrite Hqh, Hqt.
+      split; [exact He|]. split; [exact Htk|].
+      rewrite <- Hrq. unfold rank. cbn [with_pc workers tokens].
+      rewrite rank_list_set by exact Hw. change (nth w (workers q) Gone) with (pc_of q w).
+      rewrite Hpc. cbn [rank_pc]. lia.
+  - (* WakeTimer *)
+    destruct (pc_of q w) as [|mis u| |] eqn:Hpc; try discriminate.
+    destruct (t <? u); [discriminate|]. injection Hs as <-.
+    assert (Hw : (w < length (workers q))%nat) by (apply pc_of_lt; rewrite Hpc; discriminate).
+    cbn [with_pc hp tokens]. rewrite Hqh, Hqt. split; [exact He|]. split; [exact Htk|].
+    rewrite <- Hrq. unfold rank. cbn [with_pc workers tokens].
+    rewrite rank_list_set by exact Hw. change (nth w (workers q) Gone) with (pc_of q w).
+    rewrite Hpc. cbn [rank_pc]. lia.
+  - (* WakeToken *)
+    destruct (pc_of q w) as [|mis u| |] eqn:Hpc; try discriminate.
+    destruct (tokens q >? 0) eqn:Et; [|discriminate]. apply Z.gtb_lt in Et. injection Hs as <-.
+    assert (Hw : (w < length (workers q))%nat) by (apply pc_of_lt; rewrite Hpc; discriminate).
+    cbn [with_pc hp tokens]. rewrite Hqh. split; [exact He|]. split; [lia|].
+    rewrite <- Hrq. unfold rank. cbn [with_pc workers tokens].
+    rewrite rank_list_set by exact Hw. change (nth w (workers q) Gone) with (pc_of q w).
+    rewrite Hpc. cbn [rank_pc]. lia.
+  - (* CbEnd *)
+    destruct (pc_of q w) as [| |x|] eqn:Hpc; try discriminate. injection Hs as <-.
+    assert (Hw : (w < length (workers q))%nat) by (apply pc_of_lt; rewrite Hpc; discriminate).
+    cbn [with_pc hp tokens]. rewrite Hqh, Hqt. split; [exact He|]. split; [exact Htk|].
+    rewrite <- Hrq. unfold rank. cbn [with_pc workers tokens].
+    rewrite rank_list_set by exact Hw. change (nth w (workers q) Gone) with (pc_of q w).
+    rewrite Hpc. cbn [rank_pc]. lia.
+Qed.
+
+(* every run of worker labels from a state with an empty heap is finite: its length is
+   bounded by the rank of the state *)
+Theorem wind_down_bounded : forall tr p p',
+  arr (hp p) = [] -> 0 <= tokens p -> forallb worker_label tr = true -> run p tr = Some p' ->
+  Z.of_nat (length tr) <= rank p - rank p' /\ arr (hp p') = [] /\ 0 <= rank p'.
+Proof.
+  induction tr as [|l tr IH]; intros p p' He Htk Hl Hr; cbn [run] in Hr.
+  - injection Hr as <-. cbn [length]. split; [lia|]. split; [exact He|].
+    unfold rank. pose proof (rank_list_nonneg (workers p)). lia.
+  - cbn [forallb] in Hl. apply andb_prop in Hl. destruct Hl as [Hl1 Hl2].
+    destruct (step p l) as [p1|] eqn:Es; [|discriminate].
+    destruct (rank_step p l p1 He Htk Hl1 Es) as [He1 [Htk1 Hlt]].
+    destruct (IH p1 p' He1 Htk1 Hl2 Hr) as [A [B C]].
+    split; [cbn [length]; lia|]. split; assumption.
+Qed.
+
+(* ... and when no worker label is enabled any more, no worker is left *)
+Theorem wind_down_end : forall p, pool_inv p ->
+  (forall l, worker_label l = true -> now p <= label_time l -> step p l = None) ->
+  watchers p = 0.
+Proof.
+  intros p Hinv Hstuck. apply (no_watchers_iff_all_gone p Hinv). intros w.
+  destruct (pc_of p w) as [mis|mis u|x|] eqn:Hpc; [| | |reflexivity]; exfalso.
+  - specialize (Hstuck (LDecide w (now p)) eq_refl (Z.le_refl _)).
+    unfold step in Hstuck. cbn [label_time] in Hstuck. rewrite Z.ltb_irrefl in Hstuck.
+    change (pc_of (with_now p (now p)) w) with (pc_of p w) in Hstuck. rewrite Hpc in Hstuck. discriminate.
+  - specialize (Hstuck (LWakeTimer w (Z.max (now p) u)) eq_refl (Z.le_max_l _ _)).
+    unfold step in Hstuck. cbn [label_time] in Hstuck.
+    destruct (Z.max (now p) u <? now p) eqn:E; [apply Z.ltb_lt in E; lia|].
+    change (pc_of (with_now p (Z.max (now p) u)) w) with (pc_of p w) in Hstuck. rewrite Hpc in Hstuck.
+    destruct (Z.max (now p) u <? u) eqn:E2; [apply Z.ltb_lt in E2; lia|discriminate].
+  - specialize (Hstuck (LCbEnd w (now p)) eq_refl (Z.le_refl _)).
+    unfold step in Hstuck. cbn [label_time] in Hstuck. rewrite Z.ltb_irrefl in Hstuck.
+    change (pc_of (with_now p (now p)) w) with (pc_of p w) in Hstuck. rewrite Hpc in Hstuck. discriminate.
+Qed.
+
+(** * coverage *)
+
+(* strong coverage: with a non-empty heap somebody is about to look at it (deciding,
+   running a callback, or a sleeper whose timer has expired), or a wake-up token is
+   buffered for a sleeper, or a sleeper's timer expires no later than the head's fire time *)
+Definition covered (p : pool) : Prop :=
+  arr (hp p) <> [] ->
+  (exists w, active (pc_of p w)) \/
+  (exists w m u, pc_of p w = Sleeping m u /\ u <= now p) \/
+  (0 < tokens p /\ exists w m u, pc_of p w = Sleeping m u) \/
+  (exists w m u, pc_of p w = Sleeping m u /\ u <= head_fire (hp p)).
+
+(* the one step for which preservation of [covered] is not proved here: a worker that
+   slept twice without work gives up although the heap is not empty (it is not alone) *)
+Definition delicate_exit (p : pool) (l : label) : Prop :=
+  exists w t mis, l = LDecide w t /\ pc_of p w = Deciding mis /\ 1 < mis /\
+                  arr (hp p) <> [] /\ 1 < watchers p /\ t <= head_fire (hp p).
+
+Lemma covered_init : forall i m c k, covered (init_pool i m c k).
+Proof. intros i m c k H. cbn in H. contradiction. Qed.
+
+Lemma covered_now : forall p t, covered p -> now p <= t -> covered (with_now p t).
+Proof.
+  intros p t C Ht Hne. change (arr (hp (with_now p t))) with (arr (hp p)) in Hne.
+  destruct (C Hne) as [A|[[w [m [u [E D]]]]|[A|A]]].
+  - left. exact A.
+  - right. left. exists w, m, u. split; [exact E|]. cbn [with_now now]. lia.
+  - right. right. left. exact A.
+  - right. right. right. exact A.
+Qed.
+
+Lemma covered_token : forall p, 1 <= count_live (workers p) -> 0 < tokens p -> covered p.
+Proof.
+  intros p Hc Ht _. destruct (exists_live _ Hc) as [w Hw].
+  destruct (live_cases _ Hw) as [A|[m [u E]]].
+  - left. exists w. exact A.
+  - right. right. left. split; [exact Ht|]. exists w, m, u. exact E.
+Qed.
+
+Theorem coverage_step_partial : forall p l p',
+  pool_ok p -> pool_inv p -> covered p -> step p l = Some p' ->
+  covered p' \/ delicate_exit p l.
+Proof.
+  intros p l p' Hok Hinv Hcov Hs. unfold step in Hs.
+  destruct (label_time l <? now p) eqn:Ht; [discriminate|]. apply Z.ltb_ge in Ht.
+  pose proof (pool_inv_now p (label_time l) Hinv Ht) as Hinv0.
+  pose proof (with_now_ok p (label_time l) Hok) as Hok0.
+  pose proof (covered_now p (label_time l) Hcov Ht) as Hcov0.
+  set (q := with_now p (label_time l)) in *.
+  assert (Hqp : hp q = hp p /\ watchers q = watchers p /\ forall w, pc_of q w = pc_of p w) by (repeat split).
+  destruct Hqp as [Hqh [Hqw Hqpc]].
+  clearbody q.
+  destruct Hinv0 as [Par W F0 B T F1 WC]. destruct Par as [P1 P2 P3].
+  destruct l as [x d tc nn t|x t|w t|w t|w t|w t]; cbn [label_time] in *.
+  - (* Call *)
+    left. destruct (tc >? t); [discriminate|]. destruct nn.
+    + destruct (do_call_nonnil q x d tc p' Hs) as [h [_ [Hi [Hm [Hc [Hn Hcase]]]]]].
+      destruct Hcase as [[W0 [W1 [Wk Tk]]]|[W0 [W1 [Wk Tk]]]].
+      * intros _. left. exists (length (workers q)). unfold pc_of. rewrite Wk.
+        rewrite app_nth2 by lia. rewrite Nat.sub_diag. exact I.
+      * pose proof (notify_tokens q P3 T) as Hnt.
+        pose proof (count_live_nonneg (workers q)).
+        apply covered_token; [rewrite Wk; lia|lia].
+    + destruct (do_call_nil q x d tc p' Hs) as [Ha [Hw [Htk [Hwk [Hn [Hi [Hm [Hc [Hnc Hg]]]]]]]]].
+      intros Hne. rewrite Ha in Hne.
+      assert (Hhf : head_fire (hp p') = head_fire (hp q)).
+      { apply head_fire_same; [exact Ha| |exact Hne].
+        intros y Hy. rewrite Hg; [reflexivity|]. intros ->.
+        destruct (po_pend q Hok0 x Hy) as [A _]. congruence. }
+      unfold pc_of. rewrite Hwk, Htk, Hhf, Hn. apply Hcov0. exact Hne.
+  - (* Cancel *)
+    left.
+    destruct (do_cancel_facts q x p' Hok0 Hs) as [_ [_ [_ [Hwk [Hwa [Hn [Hin [Hf [_ Hnp]]]]]]]]].
+    destruct (in_dec N.eq_dec x (arr (hp q))) as [HI|HI].
+    + assert (Hne : arr (hp q) <> []) by (intros E; rewrite E in HI; destruct HI).
+      specialize (F0 Hne).
+      assert (Htk : tokens p' = tokens (notify q)).
+      { unfold do_cancel in Hs. destruct (negb (was_called q x)); [discriminate|].
+        rewrite (pending_idx _ _ (po_idx q Hok0) HI) in Hs.
+        match type of Hs with Some (if ?c then _ else _) = _ => destruct c eqn:Ew end; injection Hs as <-.
+        - reflexivity.
+        - rewrite Z.gtb_ltb in Ew. apply Z.ltb_ge in Ew. cbn [with_heap watchers] in Ew. lia. }
+      pose proof (notify_tokens q P3 T) as Hnt.
+      apply covered_token; [rewrite Hwk; lia|lia].
+    + destruct (Hnp HI) as [Hh Htk'].
+      intros Hne. rewrite Hh in Hne. unfold pc_of. rewrite Hwk, Htk', Hh, Hn. apply Hcov0. exact Hne.
+  - (* Decide *)
+    destruct (pc_of q w) as [mis| | |] eqn:Hpc; try discriminate. injection Hs as <-.
+    assert (Hw : (w < length (workers q))%nat) by (apply pc_of_lt; rewrite Hpc; discriminate).
+    destruct (decide_out_intro q w mis t) as [Hcond Hmis|u Hcond|h1 x sp Hlen Hdue HP Hsp].
+    + destruct Hcond as [E|[E [A Bw]]].
+      * left. intros Hne. cbn [exit_worker hp] in Hne. apply f_len_zero in E. contradiction.
+      * right. exists w, t, mis. split; [reflexivity|]. rewrite <- Hqpc, <- Hqh, <- Hqw.
+        split; [exact Hpc|]. split; [exact Hmis|]. split; [|split; assumption].
+        intros E'. apply E. apply f_len_zero. exact E'.
+    + left. intros Hne. cbn [with_pc hp] in Hne. right. right. right.
+      exists w, mis, u. split; [apply pc_with_pc_same; exact Hw|]. cbn [with_pc hp].
+      destruct Hcond as [[E _]|[_ [_ [[_ [_ [_ A]]]|[_ A]]]]].
+      * apply f_len_zero in E. contradiction.
+      * exact A.
+      * lia.
+    + left. intros _. left. exists w.
+      assert (Hact : active (if live (get (hs h1) x) then Running x else Deciding (mis + 1)))
+        by (destruct (live (get (hs h1) x)); exact I).
+      destruct sp.
+      * rewrite pc_with_pc_same; [exact Hact|].
+        cbn [spawn with_heap workers]. rewrite app_length. cbn [length]. lia.
+      * rewrite pc_with_pc_same by exact Hw. exact Hact.
+  - (* WakeTimer *)
+    left. destruct (pc_of q w) as [|mis u| |] eqn:Hpc; try discriminate.
+    destruct (t <? u); [discriminate|]. injection Hs as <-.
+    assert (Hw : (w < length (workers q))%nat) by (apply pc_of_lt; rewrite Hpc; discriminate).
+    intros _. left. exists w. rewrite pc_with_pc_same by exact Hw. exact I.
+  - (* WakeToken *)
+    left. destruct (pc_of q w) as [|mis u| |] eqn:Hpc; try discriminate.
+    destruct (tokens q >? 0); [|discriminate]. injection Hs as <-.
+    assert (Hw : (w < length (workers q))%nat) by (apply pc_of_lt; rewrite Hpc; discriminate).
+    intros _. left. exists w. unfold pc_of. cbn [with_pc workers]. rewrite set_pc_nth by exact Hw. exact I.
+  - (* CbEnd *)
+    left. destruct (pc_of q w) as [| |x|] eqn:Hpc; try discriminate. injection Hs as <-.
+    assert (Hw : (w < length (workers q))%nat) by (apply pc_of_lt; rewrite Hpc; discriminate).
+    intros _. left. exists w. rewrite pc_with_pc_same by exact Hw. exact I.
+Qed.
+
+(* coverage for a pool that never has more than one worker at a time (maxWorkers = 1):
+   there the delicate step does not exist and [covered] is a full inductive invariant *)
+Theorem coverage_single_worker : forall i c k tr p,
+  0 <= i -> 1 <= c -> 0 <= k <= c ->
+  run (init_pool i 1 c k) tr = Some p -> covered p.
+Proof.
+  intros i c k tr p Hi Hc Hk.
+  assert (G : forall tr q p, pool_ok q -> pool_inv q -> maxw q = 1 -> covered q ->
+              run q tr = Some p -> covered p).
+  { clear. induction tr as [|l tr IH]; intros q p Hok Hinv Hm Hcov Hr; cbn [run] in Hr.
+    - injection Hr as <-. exact Hcov.
+    - destruct (step q l) as [q1|] eqn:Es; [|discriminate].
+      pose proof (pool_inv_step q l q1 Hok Hinv Es) as Hinv1.
+      pose proof (sf_ok _ _ _ (step_facts_hold q l q1 Hok Es)) as Hok1.
+      apply (IH q1 p Hok1 Hinv1); [| |exact Hr].
+      + (* maxw is constant *)
+        clear - Es Hm. unfold step in Es. destruct (label_time l <? now q); [discriminate|].
+        destruct l as [x d tc nn t|x t|w t|w t|w t|w t]; cbn [label_time] in Es.
+        * destruct (tc >? t); [discriminate|]. destruct nn.
+          -- destruct (do_call_nonnil _ x d tc q1 Es) as [h [_ [_ [A _]]]]. rewrite A. exact Hm.
+          -- destruct (do_call_nil _ x d tc q1 Es) as [_ [_ [_ [_ [_ [_ [A _]]]]]]]. rewrite A. exact Hm.
+        * unfold do_cancel in Es. destruct (negb (was_called _ x)); [discriminate|].
+          destruct (idx _ <? 0); [injection Es as <-; exact Hm|].
+          match type of Es with Some (if ?c then _ else _) = _ => destruct c end; injection Es as <-; exact Hm.
+        * destruct (pc_of _ w) as [mis| | |]; try discriminate. injection Es as <-.
+          destruct (decide_out_intro (with_now q t) w mis t) as [? ?|u ?|h1 x sp ? ? ? ?]; try exact Hm.
+          destruct sp; exact Hm.
+        * destruct (pc_of _ w); try discriminate. destruct (t <? until); [discriminate|].
+          injection Es as <-. exact Hm.
+        * destruct (pc_of _ w); try discriminate. destruct (tokens _ >? 0); [|discriminate].
+          injection Es as <-. exact Hm.
+        * destruct (pc_of _ w); try discriminate. injection Es as <-. exact Hm.
+      + destruct (coverage_step_partial q l q1 Hok Hinv Hcov Es) as [C|[w [t [mis [_ [_ [_ [_ [Hw _]]]]]]]]].
+        * exact C.
+        * exfalso. pose proof (pi_bound q Hinv). lia. }
+  intros Hr. apply (G tr (init_pool i 1 c k) p); auto.
+  - apply pool_ok_init.
+  - apply pool_inv_init; auto; lia.
+  - apply covered_init.
 Qed.
